@@ -545,6 +545,36 @@ fn explore_both(
         let case = Case::new(RegSrc::Prog(prog), sp.clone(), "D-generic (no coincidence filter)");
         check(&case, &class, ctx);
     }));
+    // three instantiations of a two-parameter definition with one field: whether two same-path entries count
+    // as one definition is decided pairwise (each against the first); with three of them, one of which uses one
+    // type for both parameters, "equal to the first" is not transitive
+    let d3 = DGeneric {
+        max_fields: 1,
+        max_insts: 3,
+        include_cf3: false,
+        body_forms: vec![BodyForm::Named],
+        param_forms: vec![ParamForm::Two],
+    };
+    let budget = Budget {
+        max_depth: 4,
+        wall: Duration::from_secs(if thorough { 600 } else { 150 }),
+        max_states: 60_000_000,
+    };
+    let mut st3 = explore(&d3, &budget, seed, |s, ctx| {
+        if !wf5_ok(s) {
+            ctx.exclude("WF5: parameter under compact instantiated with a non-compactable type");
+            return;
+        }
+        let prog = s.program();
+        let class = match s.insts.iter().find_map(|a| coincidence(&prog.defs[G_D], a, &prog).err()) {
+            Some(w) => format!("coincident-generic({})", &w[..3]),
+            None => "generic-family".to_string(),
+        };
+        let case = Case::new(RegSrc::Prog(prog), sp.clone(), "D-generic, three instantiations of <T, U>");
+        check(&case, &class, ctx);
+    });
+    st3.driver = format!("three instantiations: {}", st3.driver);
+    report.add(st3);
     // D-chain
     let mut chain = vec![Case::new(RegSrc::Polkadot { retain: None }, sp.clone(), "D-chain full")];
     let n = crate::run::polkadot_registry().types.len() as u32;
